@@ -1,9 +1,12 @@
 import ExoVerif.Driver.Common
 import ExoVerif.Model.Atomic
+import ExoVerif.Model.AtomicItems
 /- driver for the C09 correspondence: for every failing call the harness names the entry point and the
    step (check / callee) that refused; the model answers whether a failure at that step can leave a
    trace (`dirty`) or not (`clean`), from the order of checks and writes alone.
-   ops: `at.reset`, `at <entry> <step name…>`, `at.skip …` (unclassified failure, monitor only) -/
+   ops: `at.reset`, `at <entry> <step name…>`, `at.skip …` (unclassified failure, monitor only),
+   `at.item <loop> <step name…>` (harness/dom_atomic_items.go: an item of a per-item loop of block processing failed at
+   that step and a later item of the same block succeeded: `isolated` | `trace`, Model/AtomicItems.lean: itemVerdict) -/
 namespace ExoVerif.Driver.Atomic
 open ExoVerif.Atomic ExoVerif.Driver
 
@@ -11,6 +14,7 @@ def step (u : Unit) (w : List String) : Unit × String :=
   match w with
   | ["at.reset"] => (u, "ok")
   | "at.skip" :: _ => (u, "skip")
+  | "at.item" :: loop :: rest => (u, Items.itemVerdict loop (joinWith " " rest))
   | "at" :: entry :: rest =>
     match lookup entry with
     | none => (u, "unknown-entry")
